@@ -309,7 +309,8 @@ func DrawLayout(t *rapid.T, wl scen.Workload, keepIndexed bool, decorate bool) L
 	}
 	if decorate {
 		if rapid.Bool().Draw(t, "pad") {
-			lay.Pad = pick(t, "pad_bytes", []byte{0x01, 0xff, 0xff}, []byte{0}, []byte{1, 2, 3, 4, 5, 6, 7, 8, 9, 10, 11, 12, 13}, []byte{0xff, 0xff, 0xff, 0xff})
+			lay.Pad = pick(t, "pad_bytes", []byte{0x01, 0xff, 0xff}, []byte{0}, []byte{1, 2, 3, 4, 5, 6, 7, 8, 9, 10, 11, 12, 13}, []byte{0xff, 0xff, 0xff, 0xff},
+				[]byte{0, 0, 0, 0, 0, 0, 0, 0, 0, 0, 0, 0, 0, 0, 0, 0, 0, 0, 0, 0}, []byte{9, 9, 9, 9, 9, 9, 9, 9, 1, 0, 0, 0, 0, 0, 0, 0, 7, 0, 0, 0, 0, 0, 0, 0, 3, 0, 0, 0, 0, 0, 0, 0, 1, 1})
 		}
 		nUnk := rapid.IntRange(0, 5).Draw(t, "n_unknown")
 		if len(lay.Pad) == 0 && nUnk == 0 {
@@ -455,6 +456,32 @@ func checkReaders(img []byte, c *model.Content, indexed bool, del scen.Delivery,
 	hdr := project(lr.Recs, "header")
 	if len(hdr) != 1 || hdr[0].Name != c.Profile || hdr[0].Enc != c.Library {
 		return "lexer", "content", "header differs"
+	}
+	// message index records as the library parses them vs the reference decoder
+	if rf, err := refmcap.Decode(img, refmcap.DecodeOptions{}); err == nil {
+		var want []string
+		for _, r := range rf.Records {
+			if mi, ok := r.V.(*refmcap.MessageIndex); ok {
+				var sb strings.Builder
+				fmt.Fprintf(&sb, "%d:", mi.ChannelID)
+				for _, en := range mi.Entries {
+					fmt.Fprintf(&sb, "%d@%d,", en.LogTime, en.Offset)
+				}
+				want = append(want, sb.String())
+			}
+		}
+		var got []string
+		for _, r := range project(lr.Recs, "message_index") {
+			got = append(got, fmt.Sprintf("%d:%s", r.ChannelID, r.Name))
+		}
+		if len(got) != len(want) {
+			return "lexer", "content", fmt.Sprintf("%d message index tokens, file has %d message index records", len(got), len(want))
+		}
+		for i := range want {
+			if got[i] != want[i] {
+				return "lexer", "content", fmt.Sprintf("message index %d parses as %s, file says %s", i, got[i], want[i])
+			}
+		}
 	}
 	// ---- scan ----------------------------------------------------------------
 	scan := drive.ReadMessages(simdisk.NewSource(img, del, nil), drive.ReadSpec{UseIndex: false, MetaCB: true})
